@@ -5,6 +5,7 @@ package gff
 // C14: GFF write-then-read preserves records and 1-based/0-based coordinates.
 //
 // verif:bound C14 sequence length in {1,2,3,69,70,71,72,139,140,141} (quick) / every length 1..212 (thorough: every residue class modulo the 70-column width, three wraps), all letters symbolic (a-z); 0..2 (quick) / 0..3 (thorough) features with 1..2 attributes; feature coordinates at the extremes and one interior span
+// verif:bound C14 many-features clause: 17 and 30 features (quick) / 15..34 (thorough) on an 80-letter sequence
 // verif:bound C14 field text symbolic: seqid / region name 2 bytes over [a-zA-Z0-9.:^*$@!+_?|-] (the GFF3 ID alphabet), source/type/score/phase/attribute values 1..2 bytes (fixed lengths per field) over printable ASCII without tab, newline, ';', '=', '#', '>'; strand over + - . ?
 // verif:assume C14 preconditions (the writer's documented defaults would otherwise rewrite them): non-empty region name, RegionStart = 1, RegionEnd = sequence length, GffVersion set, at least one attribute per feature, attribute keys concrete (ID, Name)
 // verif:bound C14 outside the claim: sequences longer than 212, more than 3 features / 2 attributes, GFF text laid out by an independent writer (only the repository's own excerpt, as a translator-validation vector), Read/Write file wrappers
@@ -127,6 +128,39 @@ func Harness_C14_RoundTrip() {
 	vCover("C14 two features", nf == 2)
 }
 
+// many features (count thresholds)
+func Harness_C14_ManyFeatures() {
+	nf := []int{17, 30}[vChoice(2)]
+	if vTier(0, 1) == 1 {
+		nf = 15 + vChoice(20)
+	}
+	L := 80
+	var seq poly.Sequence
+	seq.Sequence = vBytes(3, "acgt") + "acgtacgtacgtacgtacgtacgtacgtacgtacgtacgtacgtacgtacgtacgtacgtacgtacgtacgtacgta"[:L-6] + vBytes(3, "acgt")
+	seq.Meta.Name = "chr1"
+	seq.Meta.GffVersion = "3"
+	seq.Meta.RegionStart = 1
+	seq.Meta.RegionEnd = L
+	sym := vBytes(2, c14Text())
+	for i := 0; i < nf; i++ {
+		var f poly.Feature
+		f.Name, f.Source, f.Type, f.Score, f.Strand, f.Phase = "chr1", "src", "gene", ".", "+", "."
+		f.Attributes = map[string]string{"ID": "g" + string(rune('a'+i%26)) + string(rune('a'+i/26))}
+		if i == nf-1 || i == 16 {
+			f.Attributes["Name"] = sym
+		}
+		f.SequenceLocation = poly.Location{Start: i % 40, End: i%40 + 5}
+		seq.AddFeature(&f)
+	}
+	back := Parse(Build(seq))
+	vAssert(vEqStr(back.Sequence, seq.Sequence), "sequence-preserved")
+	vAssert(len(back.Features) == nf, "feature-count-preserved")
+	for i := 0; i < nf && i < len(back.Features); i++ {
+		a, b := seq.Features[i], back.Features[i]
+		vAssert(b.SequenceLocation.Start == a.SequenceLocation.Start && b.SequenceLocation.End == a.SequenceLocation.End, "coordinates-convert-1-based-inclusive-to-0-based-half-open")
+		vAssert(vEqStr(a.Attributes["ID"], b.Attributes["ID"]) && vEqStr(a.Attributes["Name"], b.Attributes["Name"]), "attribute-value-preserved")
+	}
+}
 func Selftest_C14_Vectors() {
 	text := "##gff-version 3\n##sequence-region NC_000913.3 1 140\nNC_000913.3\tRefSeq\tregion\t1\t140\t.\t+\t.\tID=NC_000913.3:1..140;Dbxref=taxon:511145;Name=ANONYMOUS\nNC_000913.3\tRefSeq\tgene\t10\t80\t.\t-\t.\tID=gene-b0001;gene=thrL\n###\n##FASTA\n>NC_000913.3\nagcttttcattctgactgcaacgggcaatatgtctctgtgtggattaaaaaaagagtgtctgatagcagc\nttctgaactggttacctgccgtgagtaaattaaaattttattgacttaggtcactaaatactttaaccaa\n"
 	s := Parse([]byte(text))
